@@ -17,11 +17,12 @@ among the open context managers (with items, or handed to enter_context() of an 
 return, chained assignments, helper expansion and conditional expressions all reduce to the same question.
 """
 import ast
+import re
 
 from ..astutil import (assigned_targets, u, guard_map, path_atoms, stmts_in, calls_in, callee, callee_attr, reaching_def, def_value,
                        PARAM, AMBIGUOUS, raised_name, assigns_to, get_arg, block_path, find_parent_map, is_none)
 from ..report import Undecided
-from .c06 import sym_paths, returning, subst, is_unknown, _is_simple, expand_foreign_helpers, expand_state_objects
+from .c06 import sym_paths, returning, subst, is_unknown, _is_simple, expand_foreign_helpers, expand_state_objects, expand_generator_loops
 
 FN = 'gambit.sigs.calc.calc_file_signatures'
 ORDER_PRESERVING_ITER = {'gambit.util.progress.iter_progress'}
@@ -320,17 +321,316 @@ def _accumulator_reuse(rep, m, fi, loop, c, kspec):
     return ok, sorted(set(found)) or 'fresh or cleared on every path'
 
 
+def _executor_lifetime(rep, m, fi, fn, gm, sub, sub_scope, cloop, with_owner):
+    # ------------------------------------------------------------------ S5: executor lifetime, decided per path
+    # On every path that reaches the submissions: which object receives .submit, and is it among the context managers that
+    # are open there?  An executor created on that path must be (it is shut down by the with); the caller's must not be.
+    exn = 'executor'
+    paths = sym_paths(fn)
+    n_own = n_foreign = 0
+    ctors = {}
+    for p in paths:
+        ev = p.event_of(sub_scope)
+        if ev is None:
+            continue
+        recv = subst(sub.func.value, ev.env)
+        rep.require(isinstance(recv, ast.Name) and not is_unknown(recv), f'{FN}: cannot follow the object that receives .submit ({u(recv)})')
+        items = [(w, x) for w in ev.withs for x in p.event_of(w, 'enter').expr]
+        at = p.atoms()
+        held = [w for (w, x) in items if u(x) == recv.id]
+        before = p.events[:p.events.index(ev)]
+        # an ExitStack that is open here manages whatever was handed to its enter_context() before the submissions
+        stacks = {e.sym: e.stmt for e in before if e.kind == 'def' and isinstance(e.stmt, ast.With) and any(e.stmt is w for w in ev.withs)
+                  and isinstance(e.expr, ast.Call) and e.expr.args and isinstance(e.expr.args[0], ast.Call) and (m.resolve_call(fi, e.expr.args[0]) or '') == 'contextlib.ExitStack'}
+        for e in before:
+            c = e.expr if e.kind == 'call' else (p.defs.get(e.sym) if e.kind == 'def' else None)
+            if isinstance(c, ast.Call) and isinstance(c.func, ast.Attribute) and isinstance(c.func.value, ast.Name) and c.func.value.id in stacks and any(u(a) == recv.id for a in c.args):
+                rep.require(c.func.attr == 'enter_context' and len(c.args) == 1 and not c.keywords, f'{FN}: the executor is handed to the exit stack by a construct outside the vocabulary: {u(c)}')
+                held.append(stacks[c.func.value.id])
+                items.append((stacks[c.func.value.id], c))
+        # a context manager built from the executor by something else (closing(executor), a helper ...) is not interpreted;
+        # neither is an explicit shutdown() in place of a with
+        wrapped = [u(p.resolve(x)) for (_, x) in items if u(x) != recv.id and not (isinstance(x, ast.Call) and isinstance(x.func, ast.Attribute) and x.func.attr == 'enter_context')
+                   and any(isinstance(n, ast.Name) and n.id == recv.id for n in ast.walk(p.resolve(x)))]
+        shut = [u(e.expr) for e in p.events if e.kind == 'call' and isinstance(e.expr, ast.Call) and u(e.expr.func) == f'{recv.id}.shutdown']
+        rep.require(not wrapped, f'{FN}: the executor reaches a with statement through a construct outside the vocabulary: {wrapped}')
+        if recv.id in p.defs:
+            n_own += 1
+            rep.require(held or not shut, f'{FN}: an executor created here is shut down by an explicit call instead of a with statement: {shut}')
+            rep.add('S5', fi.site(held[0] if held else sub_scope), 'only an executor created here becomes the with-context (and is shut down)', bool(held),
+                    expected=f'with <the executor created under {sorted(a for a in at if "concurrency" in a[1:] and a[0] == "eq")}>', found=[u(x) for _, x in items], stmt='own executor context')
+            ctor = p.defs[recv.id]
+            rep.require(isinstance(ctor, ast.Call) and isinstance(ctor.func, (ast.Name, ast.Attribute)) and not is_unknown(ctor),
+                        f'{FN}: the executor is created by a construct outside the vocabulary (a direct call of the executor class is interpreted): {u(ctor)[:80]}')
+            mode = next((a[2] if a[1] == 'concurrency' else a[1] for a in at if a[0] == 'eq' and 'concurrency' in a[1:]), None)
+            ctors.setdefault(mode, []).append((p.defs[recv.id], next(e.stmt for e in p.events if e.kind == 'def' and e.sym == recv.id), ('is', 'None', exn) in at))
+        else:
+            rep.require(recv.id == exn, f'{FN}: .submit is called on {recv.id}, which is neither the executor parameter nor an executor created here')
+            rep.require(('isnot', 'None', exn) in at, f'{FN}: the concurrent branch is reachable with executor None ({sorted(at)})')
+            n_foreign += 1
+            rep.add('S5', fi.site(held[0] if held else sub_scope), 'a caller-supplied executor is never the with-context (left open for the caller)', not held and not shut,
+                    expected=f'no `with {exn}` under `{exn} is not None`', found=[u(x) for _, x in items], stmt='foreign executor context')
+    rep.floor('S5', 'paths that submit to an executor created here', n_own, 1)
+    rep.floor('S5', 'paths that submit to the caller\'s executor', n_foreign, 1)
+    both_in_with = with_owner is not None and any(x is cloop for x in ast.walk(with_owner)) and any(x is sub_scope for x in ast.walk(with_owner))
+    rep.add('S5', fi.site(cloop), 'results are collected before the executor context exits', both_in_with, expected='completion loop inside the with', found=both_in_with,
+            stmt='collection inside with')
+    raises = [s for s in stmts_in(fn.body) if isinstance(s, ast.Raise)]
+    okr = any(raised_name(r) == 'ValueError' and ('isnot', 'None', 'concurrency') in path_atoms(gm[r]) for r in raises)
+    rep.add('S5', fi.site(raises[0] if raises else fn), 'an unknown concurrency mode raises instead of silently running sequentially', okr,
+            expected="raise ValueError under concurrency not in {'threads','processes',None}", found=[(raised_name(r), sorted(path_atoms(gm[r]))) for r in raises],
+            stmt='unknown concurrency')
+    want = {"'threads'": 'ThreadPoolExecutor', "'processes'": 'ProcessPoolExecutor'}
+    for mode, cls in want.items():
+        got = ctors.get(mode, [])
+        good = bool(got) and all(isinstance(c, ast.Call) and (m.resolve_call(fi, c) or callee(c) or '').endswith(cls) and u(get_arg(c, 0, 'max_workers')) == 'max_workers' and fresh for (c, _, fresh) in got)
+        rep.add('S5', fi.site(got[0][1]) if got else fi.site(), f'concurrency={mode} builds a {cls} with the requested worker count (only when the caller gave no executor)',
+                good, expected=f'{cls}(max_workers=max_workers)', found=[u(c) for (c, _, _) in got] or None, stmt=f'executor[{mode}]')
+    stray = {k: [u(c) for (c, _, _) in v] for k, v in ctors.items() if k not in want}
+    rep.add('S5', fi.site(), 'executors are created for the two documented concurrency modes only', not stray, expected='none', found=stray, stmt='executor[other]')
+
+    return paths
+
+
+def _pair_append(fn, pm, value):
+    """(list name, tuple, append statement) when `value` is one element of a 2-tuple that is appended to a list, directly or
+    through a local that names the tuple; else None."""
+    tup = pm.get(value)
+    if not (isinstance(tup, ast.Tuple) and len(tup.elts) == 2):
+        return None
+    holder = pm.get(tup)
+    if isinstance(holder, ast.Call) and callee_attr(holder) == 'append' and len(holder.args) == 1 and holder.args[0] is tup and isinstance(holder.func.value, ast.Name) and isinstance(pm.get(holder), ast.Expr):
+        return holder.func.value.id, tup, pm.get(holder)
+    if isinstance(holder, ast.Assign) and holder.value is tup and len(holder.targets) == 1 and isinstance(holder.targets[0], ast.Name):
+        t = holder.targets[0].id
+        apps = [s for s in stmts_in(fn.body) if isinstance(s, ast.Expr) and isinstance(s.value, ast.Call) and callee_attr(s.value) == 'append' and isinstance(s.value.func.value, ast.Name)
+                and len(s.value.args) == 1 and isinstance(s.value.args[0], ast.Name) and s.value.args[0].id == t and reaching_def(fn, t, s) is holder]
+        if len(apps) == 1:
+            return apps[0].value.func.value.id, tup, apps[0]
+    return None
+
+
+def _tagged_style(m, fi, fn, pm):
+    """The other way to keep file order under any completion order: every result is collected together with a TAG of its task,
+    (tag, result) pairs are appended as they arrive and put in order afterwards by a sort on the tag.  Detected by the result
+    of a completed future being one half of an appended pair.  Returns the pieces, or None for the slot style."""
+    acs = [c for c in calls_in(fn) if (m.resolve_call(fi, c) or callee(c) or '').endswith('as_completed')]
+    if len(acs) != 1:
+        return None
+    cloop = pm.get(acs[0])
+    if not (isinstance(cloop, ast.For) and cloop.iter is acs[0] and isinstance(cloop.target, ast.Name)):
+        return None
+    results = [c for c in calls_in(cloop) if callee_attr(c) == 'result' and u(c.func.value) == cloop.target.id]
+    if len(results) != 1:
+        return None
+    pa = _pair_append(fn, pm, results[0])
+    if pa is None:
+        return None
+    return dict(ac=acs[0], cloop=cloop, res=results[0], lst=pa[0], tup=pa[1], app=pa[2])
+
+
+def _tagged_core(ctx, fi, st):
+    rep, m = ctx.rep, ctx.model
+    fn = fi.node
+    kspec, files = fi.params()[:2]
+    gm, pm = guard_map(fn), find_parent_map(fn)
+    QF = 'gambit.sigs.calc.calc_file_signature'
+    cloop, res, L, tup, app, ac = st['cloop'], st['res'], st['lst'], st['tup'], st['app'], st['ac']
+    cf = cloop.target.id
+
+    def over_files(it, tgt):
+        """(index variable or None, file variable) of an iteration that visits every file once, in order"""
+        if isinstance(it, ast.Call) and u(it.func) == 'enumerate' and [u(a) for a in it.args] == [files] and not it.keywords and isinstance(tgt, ast.Tuple) and len(tgt.elts) == 2 \
+                and all(isinstance(e, ast.Name) for e in tgt.elts):
+            return tgt.elts[0].id, tgt.elts[1].id
+        if u(it) == files and isinstance(tgt, ast.Name):
+            return None, tgt.id
+        return None
+
+    # ---------------------------------------------------------------- submit site: which tag is recorded for a future
+    submits = [c for c in calls_in(fn) if callee_attr(c) == 'submit']
+    rep.floor('S1', 'submit sites', len(submits), 1)
+    rep.require(len(submits) == 1, f'{FN}: expected exactly one submit site, found {len(submits)}')
+    sub = submits[0]
+    rep.call_sites += 1
+    sub_stmt = next((s for s in stmts_in(fn.body) if isinstance(s, (ast.Assign, ast.Expr)) and any(x is sub for x in ast.walk(s))), None)
+    rep.require(sub_stmt is not None, f'{FN}: the submit call is not part of an assignment or expression statement')
+    drive = pm.get(sub)
+    while drive is not None and not isinstance(drive, (ast.For, ast.DictComp, ast.ListComp, ast.SetComp, ast.GeneratorExp, ast.Lambda, ast.stmt)):
+        drive = pm.get(drive)
+    if isinstance(drive, ast.DictComp) and drive.key is sub and len(drive.generators) == 1 and not drive.generators[0].is_async:
+        g = drive.generators[0]
+        rep.require(isinstance(sub_stmt, ast.Assign) and sub_stmt.value is drive and len(sub_stmt.targets) == 1 and isinstance(sub_stmt.targets[0], ast.Name), f'{FN}: the future->tag comprehension is not bound to a local')
+        it, tgt, filt, tagx, mapname, sub_scope = g.iter, g.target, bool(g.ifs), drive.value, sub_stmt.targets[0].id, sub_stmt
+        init_ok, init_found = not [x for x in assigns_to(fn, mapname) if x is not sub_stmt], u(sub_stmt)[:80]
+        store_site = drive
+    else:
+        sub_loop = next((o for (_, _, o) in reversed(block_path(fn, sub_stmt)) if isinstance(o, ast.For)), None)
+        rep.require(sub_loop is not None and drive is sub_stmt, f'{FN}: submit is neither inside a for loop nor the key of a dict comprehension ({type(drive).__name__})')
+        if isinstance(sub_stmt, ast.Assign) and isinstance(sub_stmt.targets[0], ast.Name) and sub_stmt.value is sub:
+            stores = [s for s in stmts_in(sub_loop.body) if isinstance(s, ast.Assign) and isinstance(s.targets[0], ast.Subscript) and u(s.targets[0].slice) == sub_stmt.targets[0].id]
+        else:
+            stores = [sub_stmt] if isinstance(sub_stmt, ast.Assign) and isinstance(sub_stmt.targets[0], ast.Subscript) and sub_stmt.targets[0].slice is sub else []
+        rep.require(len(stores) == 1, f'{FN}: expected one `map[future] = tag` store next to the submit, found {len(stores)}')
+        ms = stores[0]
+        it, tgt, filt, tagx, mapname, sub_scope = sub_loop.iter, sub_loop.target, not (ms in sub_loop.body and sub_stmt in sub_loop.body), ms.value, u(ms.targets[0].value), sub_loop
+        mdef = assigns_to(fn, mapname)
+        init_ok, init_found = len(mdef) == 1 and u(def_value(mdef[0])) in ('dict()', '{}'), [u(x) for x in mdef]
+        store_site = ms
+    vars_ = over_files(it, tgt)
+    rep.add('S1', fi.site(sub_scope), 'tasks are submitted in one pass over enumerate(files)', vars_ is not None, expected=f'one task per element of {files}, in order', found=u(it), stmt='submit loop')
+    rep.require(vars_ is not None, f'{FN}: submissions are not driven by one pass over {files}')
+    ivar, fvar = vars_
+    wk = m.resolve(fi.module, sub.args[0]) if sub.args else None
+    rep.add('S4', fi.site(sub), 'the worker is the single-file function with the same parameters and this file', wk == QF and [u(a) for a in sub.args[1:]] == [kspec, fvar] and not sub.keywords,
+            expected=f'submit(calc_file_signature, {kspec}, {fvar})', found=u(sub), stmt='submit call')
+    kind = 'index' if ivar is not None and u(tagx) == ivar else 'file' if u(tagx) == fvar else None
+    rep.require(kind is not None, f'{FN}: the tag recorded for a future is neither the index nor the file of its own submission: {u(tagx)}')
+    rep.add('S1', fi.site(store_site), 'the future is recorded unconditionally in the iteration that submitted it, with that iteration\'s index', not filt,
+            expected='every future recorded with the tag of its own submission', found=u(store_site)[:100], stmt='map store')
+    rep.add('S1', fi.site(store_site), 'the future->index map starts empty', init_ok, expected='filled by the submissions only', found=init_found, stmt='map init')
+
+    # ---------------------------------------------------------------- completion loop: (tag of this future, its result) appended
+    rep.add('S2', fi.site(cloop), 'the completion loop waits on exactly the recorded futures', [u(a) for a in ac.args] in ([mapname], [f'{mapname}.keys()'], [f'list({mapname})']),
+            expected=f'as_completed({mapname})', found=u(ac), stmt='as_completed')
+    res_stmt = next(s for s in stmts_in(cloop.body) if any(x is res for x in ast.walk(s)) and isinstance(s, (ast.Assign, ast.Expr)))
+    for what, s_ in (('result', res_stmt), ('store', app)):
+        rbp = block_path(fn, s_)
+        inner = rbp[[i for i, (_, _, o) in enumerate(rbp) if o is cloop][0] + 1:]
+        if what == 'result':
+            in_try = [o for (_, _, o) in rbp if isinstance(o, ast.Try) and o.handlers]
+            rep.add('S2', fi.site(s_), 'a worker exception propagates: .result() is not inside a try with handlers', not in_try, expected='no handler', found=[u(h.type) for t in in_try for h in t.handlers], stmt='result handler')
+        cond = [type(o).__name__ for (_, _, o) in inner if isinstance(o, (ast.If, ast.Try, ast.While, ast.For))]
+        rep.add('S2', fi.site(s_), 'every completed future has its result taken (unconditional in the loop body)' if what == 'result' else 'every result taken is stored (unconditional in the loop body)',
+                not cond and not cloop.orelse, expected='unconditional', found=cond, stmt=f'{what} unconditional')
+    leaves = [s for s in stmts_in(cloop.body) if isinstance(s, (ast.Break, ast.Return, ast.Continue))]
+    rep.add('S2', fi.site(cloop), 'the completion loop is never left early', not leaves, expected='no break/return/continue', found=[u(s) for s in leaves], stmt='completion loop exits')
+    t = 1 if tup.elts[0] is res else 0            # position of the tag in the pair
+    tag_c = unfold(fn, tup.elts[t], app)
+    own = isinstance(tag_c, ast.Subscript) and u(tag_c.value) == mapname and u(tag_c.slice) == cf
+    rep.add('S1', fi.site(app), 'the tag collected with a result is the one recorded for the future that produced it', own, expected=f'({mapname}[{cf}], {cf}.result())', found=u(tup), stmt='result tag')
+    rep.require(own, f'{FN}: the tag paired with the result of a future is not {mapname}[{cf}]')
+
+    # ---------------------------------------------------------------- S3: sequential branch appends (tag, result) of each file in order
+    seq_calls = [c for c in calls_in(fn) if m.resolve_call(fi, c) == QF]
+    rep.floor('S3', 'direct calls of calc_file_signature', len(seq_calls), 1)
+    seq_loops = []
+    for c in seq_calls:
+        pa = _pair_append(fn, pm, c)
+        rep.require(pa is not None, f'{FN}: the sequential result is not collected as a (tag, result) pair like the concurrent one: {u(pm.get(c))[:80]}')
+        l2, tup2, app2 = pa
+        loop = next((o for (_, _, o) in reversed(block_path(fn, app2)) if isinstance(o, ast.For)), None)
+        rep.require(loop is not None, f'{FN}: sequential call outside a for loop')
+        v2 = over_files(loop.iter, loop.target)
+        t2 = 1 if tup2.elts[0] is c else 0
+        tagv = unfold(fn, tup2.elts[t2], app2)
+        k2 = None if v2 is None else ('index' if v2[0] is not None and u(tagv) == v2[0] else 'file' if u(tagv) == v2[1] else None)
+        ok = v2 is not None and l2 == L and t2 == t and k2 == kind and [u(a) for a in c.args] == [kspec, v2[1]] and not c.keywords and app2 in loop.body and not loop.orelse \
+            and not any(isinstance(x, (ast.Break, ast.Continue, ast.Return)) for x in stmts_in(loop.body))
+        rep.add('S3', fi.site(app2), 'sequential branch appends the single-file result of each file, in the order of files', ok,
+                expected=f'for ... in {files}: {L}.append((<{kind} of the file>, calc_file_signature({kspec}, file)))', found=f'for {u(loop.target)} in {u(loop.iter)}: {u(tup2)}', stmt='sequential append')
+        seq_loops.append(loop)
+    ldefs = assigns_to(fn, L)
+    rep.add('S3', fi.site(ldefs[0] if ldefs else app), 'the sequential result list starts empty', len(ldefs) == 1 and isinstance(def_value(ldefs[0]), ast.List) and not def_value(ldefs[0]).elts,
+            expected=f'{L} = [] once, before both branches', found=[u(x) for x in ldefs], stmt='sequential init')
+
+    # ---------------------------------------------------------------- S1: the order is restored by the tag, and the tag must be the submission index
+    uses = [n for n in ast.walk(fn) if isinstance(n, ast.Name) and n.id == L and isinstance(n.ctx, ast.Load)]
+    sorts, projs, other = [], [], []
+    for n in uses:
+        par = pm.get(n)
+        if isinstance(par, ast.Attribute) and par.attr == 'append':
+            continue
+        if isinstance(par, ast.Attribute) and par.attr == 'sort' and isinstance(pm.get(par), ast.Call) and isinstance(pm.get(pm.get(par)), ast.Expr):
+            sorts.append(pm.get(par))
+        elif isinstance(par, ast.comprehension) and par.iter is n and isinstance(pm.get(par), ast.ListComp):
+            projs.append(pm.get(par))
+        else:
+            other.append(u(par)[:60])
+    rep.require(not other, f'{FN}: the list of (tag, result) pairs is used by a construct outside the vocabulary (append, one sort, the projection of the results): {other}')
+    site = fi.site(sorts[0] if sorts else app)
+    if len(sorts) != 1:
+        rep.add('S1', site, 'each result is stored at the index recorded for the future that produced it (independent of completion order)', False,
+                expected=f'{L}.sort(key=<submission index>) once, after all results arrived', found=f'{len(sorts)} sorts of the pairs collected in completion order', stmt='result store')
+        rep.require(False, f'{FN}: the pairs are not put in order by exactly one sort')
+    srt = sorts[0]
+    after = all(x.lineno < srt.lineno for x in [cloop] + seq_loops) and not any(isinstance(o, (ast.For, ast.While, ast.If)) for (_, _, o) in block_path(fn, pm[srt]))
+    key = next((k.value for k in srt.keywords if k.arg == 'key'), None)
+    rev = next((k.value for k in srt.keywords if k.arg == 'reverse'), None)
+    rep.require(not srt.args and all(k.arg in ('key', 'reverse') for k in srt.keywords), f'{FN}: sort with arguments outside the vocabulary: {u(srt)}')
+    by = None                   # the expression the pairs are ordered by, in terms of the tag `TAG`
+    if key is None:
+        by = 'TAG' if t == 0 else None
+    elif isinstance(key, ast.Lambda) and len(key.args.args) == 1 and not (key.args.vararg or key.args.kwarg or key.args.kwonlyargs or key.args.defaults):
+        class _R(ast.NodeTransformer):
+            def visit_Subscript(self, node):
+                if isinstance(node.value, ast.Name) and node.value.id == key.args.args[0].arg and isinstance(node.slice, ast.Constant) and node.slice.value == t:
+                    return ast.Name(id='TAG', ctx=ast.Load())
+                self.generic_visit(node)
+                return node
+        import copy as _copy
+        body = _R().visit(_copy.deepcopy(key.body))
+        by = None if any(isinstance(x, ast.Name) and x.id == key.args.args[0].arg for x in ast.walk(body)) else body
+        by = u(by) if by is not None else None
+    elif isinstance(key, ast.Call) and m.resolve_call(fi, key) == 'operator.itemgetter' and len(key.args) == 1 and isinstance(key.args[0], ast.Constant) and key.args[0].value == t:
+        by = 'TAG'
+    rep.require(by is not None, f'{FN}: the sort key does not order the pairs by their tag alone: {u(key) if key is not None else "natural order of pairs whose tag is second"}')
+    desc = 'each result is stored at the index recorded for the future that produced it (independent of completion order)'
+    exp = f'{L}.sort(key=lambda pair: pair[{t}]) with the submission index as tag'
+    if by == 'TAG' and kind == 'index':
+        rep.add('S1', site, desc, after and (rev is None or (isinstance(rev, ast.Constant) and not rev.value)), expected=exp, found=u(srt), stmt='result store')
+    elif kind == 'file':
+        # the position is derived from the FILE OBJECT: two submissions of equal files share that key, so a result can land in
+        # the slot of another submission - whatever the lookup is (a dict built from the files, files.index(..), the file itself)
+        look = by
+        m_ = re.fullmatch(r'(\w+)\[TAG\]', by)
+        if m_:
+            d = [x for x in assigns_to(fn, m_.group(1))]
+            look = f'{by} with {u(d[0])}' if len(d) == 1 else by
+        rep.add('S1', site, desc, False, expected=exp + ' (a position looked up by the file is shared by equal files)', found=f'{u(srt)}: position = {look}, TAG = the submitted file ({fvar})', stmt='result store')
+    else:
+        rep.require(False, f'{FN}: the pairs are ordered by {by} of the submission index, which is not interpreted')
+
+    # ---------------------------------------------------------------- S5, S6
+    bp = block_path(fn, sub_stmt)
+    with_owner = next((o for (_, _, o) in bp if isinstance(o, ast.With)), None)
+    _executor_lifetime(rep, m, fi, fn, gm, sub, sub_scope, cloop, with_owner)
+    s_pos = 1 - t
+    rets = [s for s in stmts_in(fn.body) if isinstance(s, ast.Return)]
+    for r in rets:
+        v = r.value
+        pj = v.args[0] if isinstance(v, ast.Call) and m.resolve_call(fi, v) == 'gambit.sigs.base.SignatureList' and len(v.args) >= 2 and u(v.args[1]) == kspec else None
+        pj = unfold(fn, pj, r) if pj is not None else None
+        good = isinstance(pj, ast.ListComp) and any(pj is x for x in projs) and len(pj.generators) == 1 and not pj.generators[0].ifs and r.lineno > srt.lineno and r in fn.body
+        if good:
+            g, e = pj.generators[0], pj.elt
+            if isinstance(g.target, ast.Tuple) and len(g.target.elts) == 2 and all(isinstance(x, ast.Name) for x in g.target.elts):
+                good = u(e) == g.target.elts[s_pos].id
+            else:
+                good = isinstance(g.target, ast.Name) and isinstance(e, ast.Subscript) and u(e.value) == g.target.id and isinstance(e.slice, ast.Constant) and e.slice.value == s_pos
+        rep.add('S6', fi.site(r), 'the result is the list of signatures in slot order, with the k-mer parameters', good, expected=f'SignatureList([result for tag, result in {L}], {kspec}) after the sort',
+                found=u(v)[:100] if v is not None else None, stmt='result')
+    rep.add('S6', fi.site(), 'no other return path', len(rets) == 1, expected='one return', found=[u(r)[:60] for r in rets], stmt='returns')
+    sl = m.func('gambit.sigs.base.SignatureList.__init__')
+    rep.functions.add(sl.qualname)
+    lst = [s for s in sl.node.body if isinstance(s, ast.Assign) and u(s.targets[0]) == 'self._list']
+    rep.add('S6', sl.site(lst[0] if lst else None), 'SignatureList keeps the given order (list(signatures))', len(lst) == 1 and u(lst[0].value) == f'list({sl.params()[1]})',
+            expected='self._list = list(signatures)', found=[u(s) for s in lst], stmt='SignatureList storage')
+
+
 def core(ctx):
     check_no_swallow(ctx)
     rep, m = ctx.rep, ctx.model
     fi = expand_foreign_helpers(m, m.func(FN))
+    fi, gnotes = expand_generator_loops(m, fi)
     fi, notes = expand_state_objects(m, fi)
+    notes = gnotes + notes
     rep.functions.add(fi.qualname)
     if notes:
         try:
             return _core(ctx, fi)
         except Undecided as e:
-            raise Undecided(f'{e} [state object not followed by value flow: {"; ".join(notes)}]')
+            raise Undecided(f'{e} [not followed by value flow: {"; ".join(notes)}]')
     return _core(ctx, fi)
 
 
@@ -342,6 +642,9 @@ def _core(ctx, fi):
     kspec, files = params[0], params[1]
     gm = guard_map(fn)
     pm = find_parent_map(fn)
+    style = _tagged_style(m, fi, fn, pm)
+    if style is not None:
+        return _tagged_core(ctx, fi, style)
 
     # ------------------------------------------------------------------ S1 / S4: submit site
     submits = [c for c in calls_in(fn) if callee_attr(c) == 'submit']
@@ -571,72 +874,7 @@ def _core(ctx, fi):
                     stmt='sequential init')
             seq_sites.append((loop, lst))
 
-    # ------------------------------------------------------------------ S5: executor lifetime, decided per path
-    # On every path that reaches the submissions: which object receives .submit, and is it among the context managers that
-    # are open there?  An executor created on that path must be (it is shut down by the with); the caller's must not be.
-    exn = 'executor'
-    paths = sym_paths(fn)
-    n_own = n_foreign = 0
-    ctors = {}
-    for p in paths:
-        ev = p.event_of(sub_scope)
-        if ev is None:
-            continue
-        recv = subst(sub.func.value, ev.env)
-        rep.require(isinstance(recv, ast.Name) and not is_unknown(recv), f'{FN}: cannot follow the object that receives .submit ({u(recv)})')
-        items = [(w, x) for w in ev.withs for x in p.event_of(w, 'enter').expr]
-        at = p.atoms()
-        held = [w for (w, x) in items if u(x) == recv.id]
-        before = p.events[:p.events.index(ev)]
-        # an ExitStack that is open here manages whatever was handed to its enter_context() before the submissions
-        stacks = {e.sym: e.stmt for e in before if e.kind == 'def' and isinstance(e.stmt, ast.With) and any(e.stmt is w for w in ev.withs)
-                  and isinstance(e.expr, ast.Call) and e.expr.args and isinstance(e.expr.args[0], ast.Call) and (m.resolve_call(fi, e.expr.args[0]) or '') == 'contextlib.ExitStack'}
-        for e in before:
-            c = e.expr if e.kind == 'call' else (p.defs.get(e.sym) if e.kind == 'def' else None)
-            if isinstance(c, ast.Call) and isinstance(c.func, ast.Attribute) and isinstance(c.func.value, ast.Name) and c.func.value.id in stacks and any(u(a) == recv.id for a in c.args):
-                rep.require(c.func.attr == 'enter_context' and len(c.args) == 1 and not c.keywords, f'{FN}: the executor is handed to the exit stack by a construct outside the vocabulary: {u(c)}')
-                held.append(stacks[c.func.value.id])
-                items.append((stacks[c.func.value.id], c))
-        # a context manager built from the executor by something else (closing(executor), a helper ...) is not interpreted;
-        # neither is an explicit shutdown() in place of a with
-        wrapped = [u(p.resolve(x)) for (_, x) in items if u(x) != recv.id and not (isinstance(x, ast.Call) and isinstance(x.func, ast.Attribute) and x.func.attr == 'enter_context')
-                   and any(isinstance(n, ast.Name) and n.id == recv.id for n in ast.walk(p.resolve(x)))]
-        shut = [u(e.expr) for e in p.events if e.kind == 'call' and isinstance(e.expr, ast.Call) and u(e.expr.func) == f'{recv.id}.shutdown']
-        rep.require(not wrapped, f'{FN}: the executor reaches a with statement through a construct outside the vocabulary: {wrapped}')
-        if recv.id in p.defs:
-            n_own += 1
-            rep.require(held or not shut, f'{FN}: an executor created here is shut down by an explicit call instead of a with statement: {shut}')
-            rep.add('S5', fi.site(held[0] if held else sub_scope), 'only an executor created here becomes the with-context (and is shut down)', bool(held),
-                    expected=f'with <the executor created under {sorted(a for a in at if "concurrency" in a[1:] and a[0] == "eq")}>', found=[u(x) for _, x in items], stmt='own executor context')
-            ctor = p.defs[recv.id]
-            rep.require(isinstance(ctor, ast.Call) and isinstance(ctor.func, (ast.Name, ast.Attribute)) and not is_unknown(ctor),
-                        f'{FN}: the executor is created by a construct outside the vocabulary (a direct call of the executor class is interpreted): {u(ctor)[:80]}')
-            mode = next((a[2] if a[1] == 'concurrency' else a[1] for a in at if a[0] == 'eq' and 'concurrency' in a[1:]), None)
-            ctors.setdefault(mode, []).append((p.defs[recv.id], next(e.stmt for e in p.events if e.kind == 'def' and e.sym == recv.id), ('is', 'None', exn) in at))
-        else:
-            rep.require(recv.id == exn, f'{FN}: .submit is called on {recv.id}, which is neither the executor parameter nor an executor created here')
-            rep.require(('isnot', 'None', exn) in at, f'{FN}: the concurrent branch is reachable with executor None ({sorted(at)})')
-            n_foreign += 1
-            rep.add('S5', fi.site(held[0] if held else sub_scope), 'a caller-supplied executor is never the with-context (left open for the caller)', not held and not shut,
-                    expected=f'no `with {exn}` under `{exn} is not None`', found=[u(x) for _, x in items], stmt='foreign executor context')
-    rep.floor('S5', 'paths that submit to an executor created here', n_own, 1)
-    rep.floor('S5', 'paths that submit to the caller\'s executor', n_foreign, 1)
-    both_in_with = with_owner is not None and any(x is cloop for x in ast.walk(with_owner)) and any(x is sub_scope for x in ast.walk(with_owner))
-    rep.add('S5', fi.site(cloop), 'results are collected before the executor context exits', both_in_with, expected='completion loop inside the with', found=both_in_with,
-            stmt='collection inside with')
-    raises = [s for s in stmts_in(fn.body) if isinstance(s, ast.Raise)]
-    okr = any(raised_name(r) == 'ValueError' and ('isnot', 'None', 'concurrency') in path_atoms(gm[r]) for r in raises)
-    rep.add('S5', fi.site(raises[0] if raises else fn), 'an unknown concurrency mode raises instead of silently running sequentially', okr,
-            expected="raise ValueError under concurrency not in {'threads','processes',None}", found=[(raised_name(r), sorted(path_atoms(gm[r]))) for r in raises],
-            stmt='unknown concurrency')
-    want = {"'threads'": 'ThreadPoolExecutor', "'processes'": 'ProcessPoolExecutor'}
-    for mode, cls in want.items():
-        got = ctors.get(mode, [])
-        good = bool(got) and all(isinstance(c, ast.Call) and (m.resolve_call(fi, c) or callee(c) or '').endswith(cls) and u(get_arg(c, 0, 'max_workers')) == 'max_workers' and fresh for (c, _, fresh) in got)
-        rep.add('S5', fi.site(got[0][1]) if got else fi.site(), f'concurrency={mode} builds a {cls} with the requested worker count (only when the caller gave no executor)',
-                good, expected=f'{cls}(max_workers=max_workers)', found=[u(c) for (c, _, _) in got] or None, stmt=f'executor[{mode}]')
-    stray = {k: [u(c) for (c, _, _) in v] for k, v in ctors.items() if k not in want}
-    rep.add('S5', fi.site(), 'executors are created for the two documented concurrency modes only', not stray, expected='none', found=stray, stmt='executor[other]')
+    paths = _executor_lifetime(rep, m, fi, fn, gm, sub, sub_scope, cloop, with_owner)
 
     # ------------------------------------------------------------------ S6: what is returned, per path
     MUT = ('sort', 'reverse', 'append', 'insert', 'extend', 'pop', 'remove', 'clear')
@@ -687,6 +925,18 @@ _BODY_OLD = (_SEQ_OLD + "\n\telse:\n\t\tsigs = [None] * len(files)\n" + _SUBMIT_
              "\t\t\t\tsigs[i] = future.result()\n\t\t\t\tmeter.increment()\n\n\t\tassert all(sig is not None for sig in sigs)\n")
 _BODY_GUARD = (_SEQ_OLD + "\n\t\treturn SignatureList(%s, kspec)\n\n\tsigs = [None] * len(files)\n" + _SUBMIT_OLD.replace("\n\t\t", "\n\t").replace("\t\tfuture_to_index = dict()", "\tfuture_to_index = dict()")
                + "\n\t\tfor future in as_completed(future_to_index):\n\t\t\ti = future_to_index[future]\n\t\t\tsigs[i] = future.result()\n\t\t\tmeter.increment()\n\n\tassert all(sig is not None for sig in sigs)\n")
+_GEN = ("def _signatures_as_ready(kspec, files, executor):\n\tif executor is None:\n\t\tfor n, file in enumerate(files):\n\t\t\tyield %s, calc_file_signature(kspec, file)\n\t\treturn\n\n"
+        "\tpending = {executor.submit(calc_file_signature, kspec, file): %s for n, file in enumerate(files)}\n\n\tfor future in as_completed(pending):\n\t\tyield pending[future], future.result()\n\n\n")
+
+
+def _gen_use(key, before_sort):
+    srt = "" if key is None else before_sort + "\tpairs.sort(key=%s)\n\n" % key
+    return [(_C, "\t\texecutor_context = executor\n", "\t\texecutor_context = nullcontext() if executor is None else executor\n"),
+            (_C, "\tif executor is None:\n" + _BODY_OLD + "\n\treturn SignatureList(sigs, kspec)\n",
+             "\tpairs = []\n\n\twith executor_context, get_progress(progress, len(files)) as meter:\n\t\tfor pair in _signatures_as_ready(kspec, files, executor):\n\t\t\tpairs.append(pair)\n\t\t\tmeter.increment()\n\n"
+             + srt + "\treturn SignatureList([sig for n, sig in pairs], kspec)\n")]
+
+
 _CLS_ANCHOR = "def calc_file_signatures(kspec: KmerSpec,"
 _SLOTS = ("class _Slots:\n\tdef __init__(self, n):\n\t\tself.items = [None] * n\n\t\tself.where = dict()\n\n\tdef track(self, future, index):\n\t\t%s\n\n"
           "\tdef store(self, future):\n\t\t%s\n\n\n")
@@ -762,6 +1012,17 @@ VARIANTS = [
       also=[(_C, "\t\twith executor_context, get_progress", "\t\twith (executor if own else nullcontext()), get_progress")]),
     V('twin: ownership flag inverted (caller executor shut down, own executor leaked)', 'B', _C, "\t\texecutor_context = executor\n\n\telse:\n\t\texecutor_context = nullcontext()\n", "\t\town = False\n\n\telse:\n\t\town = True\n", 'S5',
       also=[(_C, "\t\twith executor_context, get_progress", "\t\twith (executor if own else nullcontext()), get_progress")]),
+    # both branches merged into a generator of (tag, signature) pairs, collected as they arrive and sorted by the tag afterwards
+    V('E: generator yields (submission index, signature), pairs sorted by that index', 'E', _C, _CLS_ANCHOR, _GEN % ('n', 'n') + _CLS_ANCHOR, also=_gen_use("lambda pair: pair[0]", "")),
+    V('E: same, sorted with itemgetter', 'E', _C, _CLS_ANCHOR, _GEN % ('n', 'n') + _CLS_ANCHOR, also=_gen_use("itemgetter(0)", "") + [(_C, "from contextlib import nullcontext\n", "from contextlib import nullcontext\nfrom operator import itemgetter\n")]),
+    V('twin: generator tags results with the file object, position looked up by file (seeded C13d)', 'B', _C, _CLS_ANCHOR, _GEN % ('file', 'file') + _CLS_ANCHOR, 'S1',
+      also=_gen_use("lambda pair: where[pair[0]]", "\twhere = {file: n for n, file in enumerate(files)}\n")),
+    V('twin: file tags ordered by files.index', 'B', _C, _CLS_ANCHOR, _GEN % ('file', 'file') + _CLS_ANCHOR, 'S1', also=_gen_use("lambda pair: files.index(pair[0])", "")),
+    V('twin: index-tagged pairs never sorted (completion order returned)', 'B', _C, _CLS_ANCHOR, _GEN % ('n', 'n') + _CLS_ANCHOR, 'S1', also=_gen_use(None, "")),
+    V('twin: index-tagged pairs sorted in reverse', 'B', _C, _CLS_ANCHOR, _GEN % ('n', 'n') + _CLS_ANCHOR, 'S1', also=_gen_use("lambda pair: pair[0], reverse=True", "")),
+    V('twin: concurrent results tagged with the arrival count instead of the recorded index', 'B', _C, _CLS_ANCHOR,
+      (_GEN % ('n', 'n')).replace("\tfor future in as_completed(pending):\n\t\tyield pending[future], future.result()\n", "\tdone = 0\n\tfor future in as_completed(pending):\n\t\tyield done, future.result()\n\t\tdone += 1\n") + _CLS_ANCHOR, 'S1',
+      also=_gen_use("lambda pair: pair[0]", "")),
     # a small state class in place of the list + dict (read by value flow: methods expanded, attributes as locals)
     V('E: result list and index map wrapped in a small state class', 'E', _C, _CLS_ANCHOR, _SLOTS % ('self.where[future] = index', 'self.items[self.where[future]] = future.result()') + _CLS_ANCHOR, also=_SLOTS_USE),
     V('twin: state class stores each result at the number of results so far', 'B', _C, _CLS_ANCHOR, _SLOTS % ('self.where[future] = index', 'self.items[sum(x is not None for x in self.items)] = future.result()') + _CLS_ANCHOR, 'S1', also=_SLOTS_USE),
